@@ -16,7 +16,9 @@ log=/verif/run/confirm-$name.log; mkdir -p /verif/run; : > $log
 cp "$d/demo_test.go" "$wt/$demo_path"
 echo "## demo on unchanged: $demo_cmd" >> $log
 (cd $wt && eval "$demo_cmd") >> $log 2>&1; r0=$?
-git -C $wt apply "$d/patch.diff" || { echo "PATCH DOES NOT APPLY"; exit 8; }
+# a seed written against an older tree (a later fix: commit touched the same lines) comes with a rebased patch
+pf="$d/patch.diff"; [ -f "$d/patch.rebased.diff" ] && pf="$d/patch.rebased.diff"
+git -C $wt apply "$pf" || { echo "PATCH DOES NOT APPLY"; exit 8; }
 echo "## demo with change" >> $log
 (cd $wt && eval "$demo_cmd") >> $log 2>&1; r1=$?
 rm -f "$wt/$demo_path"
@@ -26,6 +28,7 @@ echo "$name: demo_unchanged_exit=$r0 demo_changed_exit=$r1 suite_changed_exit=$r
 if [ $r0 -eq 0 ] && [ $r1 -ne 0 ] && [ $r2 -eq 0 ]; then
   mkdir -p /verif/seeded/$name
   cp "$d/patch.diff" "$d/demo_test.go" /verif/seeded/$name/
+  [ -f "$d/patch.rebased.diff" ] && cp "$d/patch.rebased.diff" /verif/seeded/$name/
   python3 - "$d/meta.json" /verif/seeded/$name/meta.json "$demo_cmd" <<'PY'
 import json,sys
 m=json.load(open(sys.argv[1]))
